@@ -28,7 +28,8 @@ RULE = ("histories of 2-14 events on a real client-mode SwarmDriver: 1-4 callers
         "harness playing the driver in every attempt with the same single holder / fresh peers / one more peer per attempt "
         "answering, on a paused tokio clock so the real back-off sleeps are free; reads by a NODE whose own record store holds the "
         "same / other / no content for the key, every quorum; reads with 5-8 distinct versions in one GET, sampled arrival "
-        "orders) on 1-2 keys with equal/different quorum (One, Majority, All, N(1..7), "
+        "orders; duplicated replies followed by a finish below the quorum; every progress event carries the step count libp2p "
+        "would report -- reply n has count n, the finish has replies + 1 -- or a smaller / larger one) on 1-2 keys with equal/different quorum (One, Majority, All, N(1..7), "
         "N(huge)) / target / is_register / expected_holders settings (empty, subset / superset of / disjoint from the "
         "responders, the local peer; fewer, as many and more holders than the quorum; holders answering first or last), 0-8 responders incl. the local peer (None and Some(self)), 1-4 "
         "content versions (chunks, transactions, registers, scratchpads, unparsable headers, payment kinds; same "
@@ -955,6 +956,51 @@ def exhaustive_orders(rng, limit):
     return cases[:limit]
 
 
+def realistic_steps(case, rng):
+    """ProgressStep::count as libp2p reports it: the n-th reply event of a query carries count n (sometimes a
+    repeated count, as for the local copy), the finishing event carries replies-so-far + 1 -- so a reply delivered
+    twice by one peer is ONE responder but TWO counted events.  Mostly realistic, sometimes smaller / larger.
+    The handlers may only log the count: no outcome may depend on it."""
+    if case.get("kind") != "hist":
+        return case
+    seen = {}
+    for ev in case["events"]:
+        k = ev["e"]
+        if k == "found":
+            n = seen.get(ev["q"], 0) + 1
+            seen[ev["q"]] = n
+            r = rng.random()
+            ev["step"] = n if r < 0.75 else max(1, n - 1) if r < 0.85 else rng.choice([1, 5, 6, n + 3, 20])
+        elif k in ("finished", "notfound", "quorumfailed", "timeout"):
+            n = seen.get(ev["q"], 0)
+            r = rng.random()
+            ev["step"] = n + 1 if r < 0.75 else rng.choice([1, max(1, n), n + 2, n + 5, 20, 21])
+    return case
+
+
+def gen_dup_then_finish_hist(rng):
+    """a reply delivered twice (or three times) by one peer, fewer distinct responders than the quorum, then the
+    query finishes: the number of reply EVENTS reaches the quorum, the number of distinct responders does not"""
+    quorum = rng.choice([["n", 2], ["n", 3], ["n", 3], ["maj"], ["n", 4], ["all"]])
+    qv = quorum_value(quorum, 5)
+    key = rng.randrange(1, 6)
+    c = rng.choice([c_raw(1), c_reg(0, [1, 2]), c_tx([1]), c_pad(True, 2, 1)])
+    distinct = rng.randrange(1, qv) if qv > 1 else 1
+    peers = rng.sample([None, 1, 2, 3, 4, 5, 6, 7, 8], distinct)
+    replies = list(peers)
+    while len(replies) < qv + rng.choice([0, 0, 1]):          # as many (or more) events as the quorum asks for
+        replies.append(rng.choice(peers))
+    rng.shuffle(replies)
+    target = rec(key, c) if rng.random() < 0.3 else None
+    evs = [{"e": "cmd", "key": key, "cfg": cfg(quorum, target, holders=gen_holders(rng, quorum)), "api": rng.random() < 0.25}]
+    if rng.random() < 0.2:
+        evs.append({"e": "cmd", "key": key, "cfg": cfg(quorum, target)})
+    for p in replies:
+        evs.append({"e": "found", "q": 0, "peer": p, "rec": rec(key, c)})
+    evs.append({"e": rng.choice(["finished", "finished", "finished", "timeout"]), "q": 0, "key": key})
+    return {"kind": "hist", "events": evs}
+
+
 def gen(ctx):
     rng = ctx.rng
     quick = ctx.tier == "quick"
@@ -969,6 +1015,9 @@ def gen(ctx):
         cases.append(gen_local_hist(rng))
     for _ in range(200 if quick else 1500):
         cases.append(gen_many_versions_hist(rng))
+    for _ in range(250 if quick else 2000):
+        cases.append(gen_dup_then_finish_hist(rng))
+    cases = [realistic_steps(c, rng) for c in cases]
     for _ in range(300 if quick else 1000):
         cases.append(gen_split(rng, 16 if quick else 32))
     for _ in range(300 if quick else 2000):
